@@ -12,7 +12,7 @@ trap cleanup EXIT
 if ! git -C "$wt" apply --3way "$sd/patch.diff" 2>/dev/null && ! git -C "$wt" apply "$sd/patch.diff"; then echo "SEED $sd: patch does not apply"; exit 8; fi
 tests=$(cd "$wt" && /venv/bin/python -m pytest -q -p no:cacheprovider -x 2>&1 | tail -1)
 ( cd "$wt" && /venv/bin/python "$sd/demo.py" >/dev/null 2>&1 ); seeded_demo=$?
-out=$(cd /verif && VERIF_REPO="$wt" ./check "$id" "$tier" 2>&1); rc=$?
+out=$(cd "$(dirname "$0")/.." && VERIF_REPO="$wt" ./check "$id" "$tier" 2>&1); rc=$?
 echo "SEED $(basename $(dirname $sd))/$(basename $sd) check=$id tier=$tier: tests=[$tests] demo_clean=$base_demo demo_seeded=$seeded_demo check_exit=$rc"
 echo "$out" | grep -E "VIOLATION|mechanism=|INCONCLUSIVE|KNOWN" | head -6
 exit 0
